@@ -10,7 +10,8 @@ All arguments are natural numbers separated by blanks.
   parsecmap name next (code cid)*
 DOC      := nobjs (n sid)* nfs (objid FONTSPEC)* nopen n* npages PAGE*        (sid 0 = direct)
 FONTSPEC := kind base ndiffs (code glyphindex)* hasToU ntou (cid nu u*)* cmap umap usecmap nreads n*
-PAGE     := nwalk n* nfonts FONTREF* nreads n* nshows (fontidx ncodes code*)*
+PAGE     := nwalk n* nfonts FONTREF* nreads n* nshows (fontidx ncodes code*)* ngops (code v)*
+             code: 0 re 1 m 2 l 3 h 4 paint 5 n 6 q 7 Q 8 w(v) 9 operand(v)
 FONTREF  := 0 objid | 1 FONTSPEC
 -/
 import PdfVerif.Model.ProcessEnc
@@ -90,7 +91,16 @@ def pPage : P PageSpec := fun ts =>
   | some (reads, ts3) =>
   match pList (pPair pNat (pList pNat)) ts3 with
   | none => none
-  | some (shows, ts4) => some ({ walk := walk, fonts := fonts, reads := reads, shows := shows }, ts4)
+  | some (shows, ts4) =>
+  match pList (pPair pNat pNat) ts4 with
+  | none => none
+  | some (gs, ts5) =>
+    let gops := gs.filterMap (fun e => match e.1 with
+      | 0 => some GOp.re | 1 => some GOp.m | 2 => some GOp.l | 3 => some GOp.h | 4 => some GOp.paint
+      | 5 => some GOp.n | 6 => some GOp.q | 7 => some GOp.Q | 8 => some (GOp.w e.2) | 9 => some (GOp.operand e.2)
+      | _ => none)
+    if gops.length != gs.length then none else
+    some ({ walk := walk, fonts := fonts, reads := reads, shows := shows, gops := gops }, ts5)
 
 def pDoc (docid : Nat) : P DocSpec := fun ts =>
   match pList (pPair pNat pNat) ts with
@@ -150,7 +160,8 @@ def showPage (d : DocSpec) (k : Option Nat) (p : PageOut) : String :=
   let parts := (p.glyphs.zip kinds).map (fun (gs, kd) =>
     if kd = 2 then (if gs.isEmpty then [] else ["?"]) else gs.map showGlyph)
   let flat := parts.flatten
-  if flat.isEmpty then "-" else ",".intercalate flat
+  let sh := if p.shapes.isEmpty then "-" else ",".intercalate (p.shapes.map (fun s => toString s.1 ++ ":" ++ toString s.2))
+  (if flat.isEmpty then "-" else ",".intercalate flat) ++ " " ++ sh
 
 def stepLine (ds : DState) (line : String) : DState × String :=
   match words line with
@@ -186,7 +197,8 @@ def stepLine (ds : DState) (line : String) : DState × String :=
         | some d, some (sel, []) =>
           let (s1, _) := step ds.world ds.st (.open hid d (caching != 0) sel)
           let cs := match alookup hid s1.handles with
-            | some h => showCaches h.c
+            | some h => showCaches h.c ++ " interp=" ++ toString h.interp.curpath.length ++ "." ++
+                toString h.interp.gstack.length ++ "." ++ toString h.interp.lw ++ "." ++ toString h.interp.argstack.length
             | none => "?"
           ({ ds with st := s1 }, "ok # " ++ cs ++ " " ++ showTables s1.tables)
         | _, _ => (ds, "bad-op")
@@ -194,7 +206,8 @@ def stepLine (ds : DState) (line : String) : DState × String :=
         let before := alookup hid ds.st.handles
         let (s1, o) := step ds.world ds.st (.next hid)
         let cs := match alookup hid s1.handles with
-          | some h => showCaches h.c
+          | some h => showCaches h.c ++ " interp=" ++ toString h.interp.curpath.length ++ "." ++
+              toString h.interp.gstack.length ++ "." ++ toString h.interp.lw ++ "." ++ toString h.interp.argstack.length
           | none => "?"
         let os := match o, before with
           | .page p, some h => "page " ++ showPage h.doc h.todo.head? p
